@@ -22,4 +22,6 @@ CAMPAIGNS = [Tags("C09", quick=15000, thorough=400000), Tags("C09", quick=160, t
 def sanity_gate(tier, total):
     need = ["tagkind_valid", "tagkind_respelled", "tagkind_other", "tagkind_junk", "tagkind_impossible",
             "tag_on_other_branch", "update_ok", "fakerepo_validated_against_git"]
-    return ["probe %s never fired" % p for p in need if total["probes"].get(p, 0) == 0]
+    need_faults = ["vcs_fail_fetch", "vcs_fail_ls_tags"]
+    return ["probe %s never fired" % p for p in need if total["probes"].get(p, 0) == 0] + \
+        ["fault %s never fired" % p for p in need_faults if total["faults"].get(p, 0) == 0]
